@@ -2,7 +2,7 @@
 
   dtype          "b1" "i1" "i2" "i4" "i8" "u1" "u2" "u4" "u8" "f2" "f4" "f8"
   bool / int     integer (bool 0/1); in "wide" mode 4 limbs of 16 bits of the two's-complement pattern
-  float          reduced rational [num, den]; [0,0] NaN; [1,0] +inf; [-1,0] -inf
+  float          reduced rational [num, den]; [0,0] NaN; [1,0] +inf; [-1,0] -inf; [0,-1] negative zero
 """
 from fractions import Fraction
 import math
@@ -35,6 +35,8 @@ def enc_float(x):
         return [0, 0]
     if math.isinf(x):
         return [1 if x > 0 else -1, 0]
+    if x == 0.0:
+        return [0, -1] if math.copysign(1.0, x) < 0 else [0, 1]      # the sign of zero is observable (copying must keep it)
     f = Fraction(x)
     if f.denominator > MAXDEN:
         f = f.limit_denominator(MAXDEN)
@@ -89,6 +91,8 @@ def dec_val(v, dt):
         n, d = v
         if d == 0:
             return float("nan") if n == 0 else math.copysign(float("inf"), n)
+        if n == 0:
+            return -0.0 if d < 0 else 0.0
         return n / d
     if isinstance(v, (list, tuple)):
         return unlimbs(v, dt)
